@@ -675,14 +675,11 @@ class SmallVectorBase : private Alloc {
       // Indeed, capacity cannot shrink, except for shrink_to_fit which resets to small state if possible.
       // Besides, if 'this' is large, let's not shrink to small size and keep our dynamic memory for now.
       // To sum-up, in this context, we do not touch our capacity, only move and relocates o's elements
-      move_n(o._storage.ptr(), o._capa, begin(), size());
-      if (o._size == kMaxSize) {
-        if (isSmall()) {
-          _size = kMaxSize;
-        }
-        o._size = inplaceCapa;
-      }
-      msize() = amc::exchange(o._capa, 0);
+      SizeType oSize = o._capa;  // 'o' is small: its size is stored in the capacity word
+      move_n(o._storage.ptr(), oSize, begin(), size());
+      o._capa = 0;
+      o._size = inplaceCapa;
+      setSize(oSize);  // maintains the 'small and full' encoding of 'this'
     } else {
       // Clear our stuff before stealing o's guts
       destroyFreeStorage();
